@@ -1,18 +1,35 @@
-From Coq Require Import ZArith String List Bool Lia ZifyBool.
-From V.C04 Require Import Int64 Int64Facts NumBase GenNumTable ModelNum Proofs.
-Import ListNotations.
-Open Scope Z_scope.
+From Coq Require Import ZArith String List Bool.
+From V.C04 Require Import Int64 NumBase GenNumTable ModelNum Proofs.
 From V.C04 Require Import ProofsBin1 ProofsBin2 ProofsBin3 ProofsBin4 ProofsBin5.
+Import ListNotations.
+
+Lemma all_rows : forall fm, Forall (bin_row fm) all_pybin.
+Proof.
+  intro fm. unfold all_pybin.
+  apply Forall_cons; [exact (row_Add fm)|].
+  apply Forall_cons; [exact (row_Sub fm)|].
+  apply Forall_cons; [exact (row_Mult fm)|].
+  apply Forall_cons; [exact (row_Div fm)|].
+  apply Forall_cons; [exact (row_FloorDiv fm)|].
+  apply Forall_cons; [exact (row_Mod fm)|].
+  apply Forall_cons; [exact (row_Pow fm)|].
+  apply Forall_cons; [exact (row_LShift fm)|].
+  apply Forall_cons; [exact (row_RShift fm)|].
+  apply Forall_cons; [exact (row_BitOr fm)|].
+  apply Forall_cons; [exact (row_BitXor fm)|].
+  apply Forall_cons; [exact (row_BitAnd fm)|].
+  apply Forall_cons; [exact (row_MatMult fm)|].
+  apply Forall_cons; [exact (row_Eq fm)|].
+  apply Forall_cons; [exact (row_NotEq fm)|].
+  apply Forall_cons; [exact (row_Lt fm)|].
+  apply Forall_cons; [exact (row_LtE fm)|].
+  apply Forall_cons; [exact (row_Gt fm)|].
+  apply Forall_cons; [exact (row_GtE fm)|].
+  apply Forall_nil.
+Qed.
 
 Lemma all_bin_ok : forall fm, Forall (fun c => bin_ok fm (fst c) (fst (snd c)) (snd (snd c))) bin_entries.
 Proof.
   intro fm. unfold bin_entries.
-  apply (Forall_prod (fun op p => bin_ok fm op (fst p) (snd p))).
-  unfold all_pybin. repeat (apply Forall_cons; [
-    first [ exact (row_Add fm) | exact (row_Sub fm) | exact (row_Mult fm) | exact (row_Div fm)
-          | exact (row_FloorDiv fm) | exact (row_Mod fm) | exact (row_Pow fm) | exact (row_LShift fm)
-          | exact (row_RShift fm) | exact (row_BitOr fm) | exact (row_BitXor fm) | exact (row_BitAnd fm)
-          | exact (row_MatMult fm) | exact (row_Eq fm) | exact (row_NotEq fm) | exact (row_Lt fm)
-          | exact (row_LtE fm) | exact (row_Gt fm) | exact (row_GtE fm) ] | ]).
-  apply Forall_nil.
+  exact (Forall_prod (fun op p => bin_ok fm op (fst p) (snd p)) all_pybin ty_pairs (all_rows fm)).
 Qed.
